@@ -85,6 +85,12 @@ class DateStr(Model):
     def to_str(self, it):
         return self
 
+    def as_sv(self):
+        """the text of the formatted date as an (uninterpreted) function of the fields it prints"""
+        keys = {"minute": ("M", "D", "h", "mi"), "day": ("Y", "M", "D"), "stamp": ("Y", "M", "D", "h", "mi", "s"), "stamp00": ("Y", "M", "D", "h", "mi")}[self.kind]
+        f = z3.Function("datestr_" + self.kind, *([z3.IntSort()] * len(keys) + [z3.StringSort()]))
+        return SV("str", f(*[self.f[k] for k in keys]))
+
     def eq(self, it, other):
         if isinstance(other, DateStr) and other.kind == self.kind:
             keys = {"minute": ("M", "D", "h", "mi"), "day": ("Y", "M", "D"), "stamp": ("Y", "M", "D", "h", "mi", "s"), "stamp00": ("Y", "M", "D", "h", "mi")}[self.kind]
